@@ -69,7 +69,41 @@ def classify(r, s, cache):
             if not (span == span and abs(span) != math.inf) or lo != lo or hi != hi \
                     or abs(lo) == math.inf or abs(hi) == math.inf:
                 kinds.add("F23")
+    for x in ssuite._walk(s):
+        # F42: a pattern that switches IGNORECASE on (globally or for a group) and negates a class or a literal - the
+        # generator ignores flags, so the complement it draws from still holds the other case of the excluded letters
+        if isinstance(x, StrSchema) and x.props.get("pattern") is not Nil and _ignorecase_negation(x.props.get("pattern")):
+            kinds.add("F42")
     return kinds
+
+
+def _ignorecase_negation(pattern):
+    import re
+    sre, src = absn.sre, absn.src
+    try:
+        parsed = sre.parse(pattern)
+    except Exception:  # noqa
+        return False
+    found = {"flag": bool(parsed.state.flags & re.IGNORECASE), "neg": False}
+
+    def walk(seq):
+        for op, av in seq:
+            if op == src.NOT_LITERAL:
+                found["neg"] = True
+            elif op == src.IN:
+                if any(o == src.NEGATE for o, _ in av):
+                    found["neg"] = True
+            elif op == src.SUBPATTERN:
+                if av[1] & re.IGNORECASE:
+                    found["flag"] = True
+                walk(av[3])
+            elif op in (src.MAX_REPEAT, src.MIN_REPEAT):
+                walk(av[2])
+            elif op == src.BRANCH:
+                for alt in av[1]:
+                    walk(alt)
+    walk(parsed)
+    return found["flag"] and found["neg"]
 
 
 def more_schemas(r, depth):
@@ -133,6 +167,9 @@ BOUNDARY = [
     "schema.str.regex('(?i)stra\u00dfe')", "schema.str.regex('stra\u00dfe')", "schema.str.regex('(?i:\ufb01)x{2}')",
     "schema.str.regex('(?i)\u0130\u0149\u01f0')", "schema.str.regex('^[\u00df\u0130]{3}$')", "schema.str.regex('(?i)[\u00df]{2}')",
     "schema.str.regex('(?s)a.b')", "schema.str.regex('(?m)^ab$')", "schema.str.regex('(?x) a b # comment')", "schema.str.regex('(?a)\\w{3}\\d')",
+    # IGNORECASE with a negated class / negated literal (F42)
+    "schema.str.regex('(?i)[^a]')", "schema.str.regex('(?i)[^a-z]{3}')", "schema.str.regex('(?i:[^b])x')", "schema.str.regex('(?i)a[^a]')",
+    "schema.list(schema.str.regex('(?i)[^a-y]')).len(2)",
     # unions in which every alternative is of a rarely combined type
     "schema.datetime | schema.none", "schema.any(schema.datetime, schema.date)", "schema.any(schema.date, schema.uuid4, schema.bytes)",
     "schema.dict({'at': schema.datetime | schema.none, optional('on'): schema.any(schema.date)})", "schema.list(schema.datetime | schema.str.len(2))",
